@@ -429,8 +429,8 @@ func (o Opts) Coq() string {
 	if o.Cipher != nil {
 		c = "(Some " + hx.CoqString(*o.Cipher) + ")"
 	}
-	return fmt.Sprintf("(mkEncOpts %s %s %s %s %s)", hx.CoqString(o.KeyName), hx.CoqString(o.Alg),
-		hx.CoqString(o.DecKeyName), hx.CoqBool(o.Omit), c)
+	return fmt.Sprintf("(mkEncOpts %s %s %s %s %s)", CoqName(o.KeyName), hx.CoqString(o.Alg),
+		CoqName(o.DecKeyName), hx.CoqBool(o.Omit), c)
 }
 
 func (o Opts) KnCombo() string {
@@ -460,7 +460,7 @@ type Manifest struct {
 }
 
 func (m Manifest) Coq() string {
-	return fmt.Sprintf("(mkManifest %s %s %s %s %s)", hx.CoqString(m.K), kwCoq[m.Kw], hx.CoqBytes(m.Wfk),
+	return fmt.Sprintf("(mkManifest %s %s %s %s %s)", CoqName(m.K), kwCoq[m.Kw], hx.CoqBytes(m.Wfk),
 		cphCoq[m.Cph], hx.CoqBytes(m.Np))
 }
 
@@ -638,7 +638,7 @@ func (t UTable) Fn() enc.UnwrapKeyFn {
 func (t UTable) Coq() string {
 	items := make([]string, len(t))
 	for i, e := range t {
-		items[i] = fmt.Sprintf("(%s, %s, %s, (%s, %s))", hx.CoqBytes(e.Wfk), hx.CoqString(e.Alg), hx.CoqString(e.Kn),
+		items[i] = fmt.Sprintf("(%s, %s, %s, (%s, %s))", hx.CoqBytes(e.Wfk), hx.CoqString(e.Alg), CoqName(e.Kn),
 			hx.CoqBytes(e.Ret), hx.CoqBool(e.Err))
 	}
 	return hx.CoqList(items)
@@ -857,6 +857,9 @@ func OBytes(b []byte) string {
 	return fmt.Sprintf("(OH %d %s)", len(b), hx.CoqBytes(d[:]))
 }
 
+// WrapNested, when set, is called inside the wrap callback of RunEncrypt before it answers.
+var WrapNested func()
+
 // EncResult: what Encrypt was observed to do.
 type EncResult struct {
 	CallErr  error
@@ -883,6 +886,9 @@ func RunEncrypt(o Opts, data []byte, sc SItems, vault Vault, wfkLen int, cr *hx.
 		WrapKeyFn: func(plaintextKey []byte, algorithm, keyName string, nonce []byte) ([]byte, []byte, error) {
 			res.Fk = append([]byte(nil), plaintextKey...)
 			res.WrapAlg, res.WrapKn, res.Wrapped = algorithm, keyName, true
+			if WrapNested != nil {
+				WrapNested()
+			}
 			w, err := vault.Wrap(plaintextKey, algorithm, keyName, wfkLen)
 			res.Wfk = w
 			return w, nil, err
@@ -923,14 +929,15 @@ func (r EncResult) CoqWTable() string {
 	var items []string
 	for _, n := range r.vault.Names() {
 		w, _ := r.vault.Wrap(r.Fk, r.alg, n, r.wfkLen)
-		items = append(items, fmt.Sprintf("(%s, %s, %s)", hx.CoqString(r.alg), hx.CoqString(n), hx.CoqBytes(w)))
+		items = append(items, fmt.Sprintf("(%s, %s, %s)", hx.CoqString(r.alg), CoqName(n), hx.CoqBytes(w)))
 	}
 	return hx.CoqList(items)
 }
 
 // DecResult: what Decrypt was observed to do.
 type DecResult struct {
-	CallErr error
+	NestedBad bool
+	CallErr   error
 	Out     []byte
 	Status  string
 	Known   bool
@@ -957,6 +964,9 @@ var ErrWrappedEOF = fmt.Errorf("end of body: %w", io.EOF)
 type SrcOpts struct {
 	Fail    string
 	WrapEOF bool
+	// Nested, when set, is called inside the unwrap callback before it answers (another stream of
+	// the package running in the window between the header parse and the first segment read)
+	Nested func()
 }
 
 func (o SrcOpts) failErr() error {
@@ -985,7 +995,15 @@ func (o SrcOpts) status(err error) (string, bool) {
 
 // StartDecrypt calls Decrypt over the scripted source and returns the stream.
 func StartDecrypt(doc []byte, sc SItems, tbl UTable, optkn string, so SrcOpts) (io.Reader, error) {
-	return enc.Decrypt(so.reader(sc, doc), enc.DecryptOptions{UnwrapKeyFn: tbl.Fn(), KeyName: optkn})
+	fn := tbl.Fn()
+	if so.Nested != nil {
+		inner := fn
+		fn = func(wrappedKey []byte, algorithm, keyName string, nonce, tag []byte) ([]byte, error) {
+			so.Nested()
+			return inner(wrappedKey, algorithm, keyName, nonce, tag)
+		}
+	}
+	return enc.Decrypt(so.reader(sc, doc), enc.DecryptOptions{UnwrapKeyFn: fn, KeyName: optkn})
 }
 
 func RunDecrypt(doc []byte, sc SItems, tbl UTable, optkn string, cr *hx.Rand) DecResult {
@@ -1051,4 +1069,65 @@ func LenClass(n int) string {
 		return fmt.Sprintf("%dS+1", n/S)
 	}
 	return "large"
+}
+
+// CoqName prints a (possibly very long) name: a run of more than 64 equal bytes is written as
+// a generator expression of Check.v instead of a literal, e.g. (pre ++ pbytes (PRep [97] 65000) ++ post).
+func CoqName(s string) string {
+	b := []byte(s)
+	best, bi := 0, 0
+	for i := 0; i < len(b); {
+		j := i
+		for j < len(b) && b[j] == b[i] {
+			j++
+		}
+		if j-i > best {
+			best, bi = j-i, i
+		}
+		i = j
+	}
+	if best <= 64 {
+		return hx.CoqBytes(b)
+	}
+	return fmt.Sprintf("(%s ++ pbytes (PRep [%d]%%N %d) ++ %s)%%list", hx.CoqBytes(b[:bi]), b[bi], best, hx.CoqBytes(b[bi+best:]))
+}
+
+// NestedRoundTrip: a complete Decrypt of a small valid document, and an Encrypt whose output is
+// decrypted again, run from INSIDE a callback of another stream (an envelope key store whose
+// records are themselves enc/v1 documents).  Returns false if either gives wrong data.
+func NestedRoundTrip(r *hx.Rand) bool {
+	p := r.Bytes(r.Range(1, 200))
+	fk := r.Bytes(32)
+	m := Manifest{K: "inner", Kw: 1, Wfk: r.Bytes(40), Cph: 1 + r.Intn(2), Np: r.Bytes(7)}
+	doc := SpecEncrypt(m, fk, p)
+	unwrap := func(wrappedKey []byte, algorithm, keyName string, nonce, tag []byte) ([]byte, error) {
+		return fk, nil
+	}
+	stream, err := enc.Decrypt(bytes.NewReader(doc), enc.DecryptOptions{UnwrapKeyFn: unwrap})
+	if err != nil {
+		return false
+	}
+	out, err := io.ReadAll(stream)
+	if err != nil || !bytes.Equal(out, p) {
+		return false
+	}
+	var got []byte
+	es, err := enc.Encrypt(bytes.NewReader(p), enc.EncryptOptions{KeyName: "inner", Algorithm: "AES",
+		WrapKeyFn: func(plaintextKey []byte, algorithm, keyName string, nonce []byte) ([]byte, []byte, error) {
+			got = append([]byte(nil), plaintextKey...)
+			return plaintextKey, nil, nil
+		}})
+	if err != nil {
+		return false
+	}
+	doc2, err := io.ReadAll(es)
+	if err != nil {
+		return false
+	}
+	ds, err := enc.Decrypt(bytes.NewReader(doc2), enc.DecryptOptions{UnwrapKeyFn: func(w []byte, a, k string, n, t []byte) ([]byte, error) { return got, nil }})
+	if err != nil {
+		return false
+	}
+	out2, err := io.ReadAll(ds)
+	return err == nil && bytes.Equal(out2, p)
 }
